@@ -653,19 +653,46 @@ namespace xv
         static thread_local AssertTrap t;
         return t;
     }
+    // hang watchdog (xvdrive): every worker publishes which kernel call it is in and since when; a call that does not
+    // return within the limit is reported as a violation ("does not return") instead of blocking the check for ever
+    struct HangSlot
+    {
+        std::atomic<double> t0 { 0 };
+        std::atomic<const xv_op*> op { nullptr };
+        std::atomic<int> module { -1 };
+        std::atomic<long> param { 0 };
+    };
+    inline HangSlot* hang_slots()
+    {
+        static HangSlot s[256];
+        return s;
+    }
+    inline HangSlot& my_hang_slot()
+    {
+        static std::atomic<int> next { 0 };
+        static thread_local HangSlot* p = &hang_slots()[next++ % 256];
+        return *p;
+    }
     // runs one array kernel; returns 0 normally, 1 = unsupported combination, 2 = other assertion failure
-    inline int guarded_call(xv_fn fn, const void* const* in, void* const* out, size_t n, xv_ctx* ctx)
+    inline int guarded_call(xv_fn fn, const void* const* in, void* const* out, size_t n, xv_ctx* ctx, const xv_op* op = nullptr, int module = -1)
     {
         AssertTrap& T = assert_trap();
+        HangSlot& H = my_hang_slot();
+        H.op = op;
+        H.module = module;
+        H.param = ctx ? ctx->param : 0;
+        H.t0 = now_s();
         int tr = sigsetjmp(T.env, 0);
         if (tr == 0)
         {
             T.armed = true;
             fn(in, out, n, ctx);
             T.armed = false;
+            H.t0 = 0;
             return 0;
         }
         T.armed = false;
+        H.t0 = 0;
         return tr;
     }
 
@@ -807,7 +834,7 @@ namespace xv
                 memset(&ctx, 0, sizeof ctx);
                 ctx.param = O.param;
                 ctx.aborted_at = -1;
-                if (int tr = guarded_call(im.op->fn, use_in, out, n, &ctx))
+                if (int tr = guarded_call(im.op->fn, use_in, out, n, &ctx, im.op, im.module))
                 {
                     assert_failed(G, O, ii, tr);
                     continue;
@@ -1026,7 +1053,7 @@ namespace xv
                     memset(&ctx, 0, sizeof ctx);
                     ctx.param = O.param;
                     ctx.aborted_at = -1;
-                    if (int tr = guarded_call(im.op->fn, use_in, out, n, &ctx))
+                    if (int tr = guarded_call(im.op->fn, use_in, out, n, &ctx, im.op, im.module))
                     {
                         assert_failed(G, O, ii, tr);
                         continue;
